@@ -343,3 +343,87 @@ func verifSimilarNames(pr [2]string) {
 	vrt.Covered("attrs-compared")
 	_ = f.Close()
 }
+
+// a 1-D attribute value with a single element keeps its shape: []int32{x} reads back as a slice, int32 as a scalar
+// (known finding KF-C02-one-element-slice: scalars and one-element slices are both stored with dataspace [1])
+func VerifH_C02_api_one_element_slice() {
+	fw, err := CreateForWrite("c02s.h5", CreateTruncate)
+	vrt.AssertNoErr(err, "create-ok")
+	ds, err := fw.CreateDataset("/d", Int32, []uint64{1})
+	vrt.AssertNoErr(err, "create-dataset-ok")
+	vrt.AssertNoErr(ds.Write([]int32{7}), "write-ok")
+	x, y := vrt.I32(), vrt.I32()
+	vrt.AssertNoErr(ds.WriteAttribute("scalar", x), "prefix-attr-write-ok")
+	vrt.AssertNoErr(ds.WriteAttribute("one", []int32{y}), "prefix-attr-write-ok")
+	vrt.AssertNoErr(fw.Close(), "close-ok")
+	f, err := Open("c02s.h5")
+	vrt.AssertNoErr(err, "reopen-ok")
+	d := verifFindDataset(f, "/d")
+	vrt.Assert(d != nil, "dataset-found-at-path")
+	got, err := d.ReadAttribute("scalar")
+	vrt.AssertNoErr(err, "attr-read-ok")
+	gi, ok := got.(int32)
+	vrt.Assert(ok && gi == x, "attr-value-int32")
+	vrt.Covered("attrs-compared")
+	got, err = d.ReadAttribute("one")
+	vrt.AssertNoErr(err, "attr-read-ok")
+	gs, ok := got.([]int32)
+	vrt.Assert(ok && len(gs) == 1 && gs[0] == y, "one-element-slice-keeps-its-shape")
+	_ = f.Close()
+}
+
+// attribute data beyond one 64 KiB heap block: n string attributes of 6000 bytes (n = 9, 10: one block; 11, 12: the
+// heap has to grow); every accepted write reads back, refused writes are absent
+// (known finding KF-C02-heap-beyond-one-block: the write that makes the heap grow is accepted and its value is lost)
+func VerifH_C02_api_dense_volume() {
+	vrt.LoopBound(200000)
+	fw, err := CreateForWrite("c02v.h5", CreateTruncate)
+	vrt.AssertNoErr(err, "create-ok")
+	ds, err := fw.CreateDataset("/d", Int32, []uint64{1})
+	vrt.AssertNoErr(err, "create-dataset-ok")
+	vrt.AssertNoErr(ds.Write([]int32{7}), "write-ok")
+	n := 9 + vrt.Choice(4)
+	names := []string{"v00", "v01", "v02", "v03", "v04", "v05", "v06", "v07", "v08", "v09", "v10", "v11"}
+	c0, c1 := 'a'+vrt.U8()%26, 'a'+vrt.U8()%26
+	accepted := make([]bool, n)
+	val := func(i int) []byte {
+		b := make([]byte, 6000)
+		for j := range b {
+			b[j] = byte('a' + (i+j)%26)
+		}
+		b[0], b[5999] = c0, c1
+		return b
+	}
+	for i := 0; i < n; i++ {
+		accepted[i] = ds.WriteAttribute(names[i], string(val(i))) == nil
+	}
+	vrt.AssertNoErr(fw.Close(), "close-ok")
+	f, err := Open("c02v.h5")
+	vrt.AssertNoErr(err, "reopen-ok")
+	d := verifFindDataset(f, "/d")
+	vrt.Assert(d != nil, "dataset-found-at-path")
+	list, err := d.ListAttributes()
+	vrt.AssertNoErr(err, "list-attributes-ok")
+	cnt := 0
+	for i := 0; i < n; i++ {
+		if accepted[i] {
+			cnt++
+		}
+	}
+	vrt.Assert(len(list) == cnt, "attr-count-as-model")
+	vrt.Covered("attrs-compared")
+	for i := 0; i < n; i++ {
+		if !accepted[i] {
+			continue
+		}
+		got, err := d.ReadAttribute(names[i])
+		s, isS := got.(string)
+		if i < 10 {
+			vrt.AssertNoErr(err, "attr-read-ok")
+			vrt.Assert(isS && s == string(val(i)), "attr-value-string")
+		} else {
+			vrt.Assert(err == nil && isS && s == string(val(i)), "large-volume-attr-readable")
+		}
+	}
+	_ = f.Close()
+}
